@@ -53,6 +53,9 @@ theorem empty_estimate_zero (iter : Iter) (s : H) (hs : s.regs.size = 2 ^ s.p)
   · unfold cardinalityG; simp only; rw [hc]
   · intro r; unfold mleG; rw [hc]
 
+example : mleCase (counts (H.empty 5 31).regs (H.empty 5 31).q) 5 (H.empty 5 31).q = .zero :=
+  (empty_estimate_zero (fun _ _ _ _ => 7.0) (H.empty 5 31) (by simp [H.empty]) (by simp [H.empty])).1
+
 /-- T-empty for `new(p, k)`. -/
 theorem new_estimate_zero (iter : Iter) (p k : Nat) : cardinalityG iter (H.empty p k) = 0 :=
   (empty_estimate_zero iter (H.empty p k) (by simp [H.empty]) (by simp [H.empty])).2.1
@@ -68,6 +71,9 @@ theorem nonempty_not_zero_case (s : H) (hs : s.regs.size = 2 ^ s.p) (r : UInt8)
   have := hc r hr
   simp at this
   exact hnz (UInt8.toNat_inj.1 (by simpa using this))
+
+example : mleCase (counts (H.mk 1 63 21 #[0, 3]).regs 63) 1 63 ≠ .zero :=
+  nonempty_not_zero_case (H.mk 1 63 21 #[0, 3]) (by decide) 3 (by simp) (by decide)
 
 /-! ## T-counts -/
 
